@@ -114,7 +114,9 @@ pub fn idiom_loop(n: usize, print: bool, heart: char) -> Vec<RCmd> {
     // counter := n + 2 ; HEAD: 항...♥ ; [print] ; counter -= 1 ; dup ; END: 항...?♥  (continues while dup >= 3)
     let hs = heart.to_string();
     let total = n + 2;
-    let (h, d) = if total % 2 == 0 { (2, total / 2) } else { (1, total) };
+    // write the bound with few characters: the largest divisor <= 64 as syllable count
+    let h = (1..=64usize).rev().find(|h| total % h == 0).unwrap_or(1);
+    let d = total / h;
     let mut v = vec![c(0, h, d), ca(1, 1, 3, &hs)];
     if print {
         v.push(c(0, 3, 11)); // 33 '!'
@@ -125,6 +127,26 @@ pub fn idiom_loop(n: usize, print: bool, heart: char) -> Vec<RCmd> {
     v.push(c(1, 2, 3)); // counter - 1
     v.push(c(5, 1, 3)); // dup
     v.push(ca(1, 1, 3, &format!("?{}", hs)));
+    v
+}
+
+/// counting loop that leaves no garbage behind (the counter goes down by 2 per round, nothing is parked on other stacks):
+/// about `n` rounds; used where every state of the run is kept (debugger histories)
+pub fn idiom_loop_clean(n: usize, print: bool, heart: char) -> Vec<RCmd> {
+    let hs = heart.to_string();
+    let total = 2 * n + 2;
+    let h = (1..=64usize).rev().find(|h| total % h == 0).unwrap_or(1);
+    let d = total / h;
+    let mut v = vec![c(0, h, d), ca(1, 1, 3, &hs)];
+    if print {
+        v.push(c(0, 3, 11)); // 33 '!'
+        v.push(c(1, 1, 1));
+    }
+    v.push(c(0, 1, 1)); // [c, 1]
+    v.push(c(3, 1, 3)); // [c, -1, -1]
+    v.push(c(1, 3, 3)); // [c - 2]
+    v.push(c(5, 1, 3)); // dup
+    v.push(ca(1, 1, 3, &format!("?{}", hs))); // continue while the copy is >= 3
     v
 }
 
